@@ -10,7 +10,10 @@ From CV Require Import Frame.FramePacked.
 From CV Require Import Frame.FramePackedProofs.
 From CV Require Import Frame.FrameSim.
 From CV Require Import Frame.FramePackedThms.
-From CV Require Import Frame.FramePackedCut.
+From CV Require Import Packed.ReadCallProofs2.
+From CV Require Import Frame.FramePackedFull.
+From CV Require Import Frame.FrameReaders.
+From CV Require Import Frame.FrameReadersProofs.
 From CV Require Import Base.GoSem.
 From CV Require Import Gen.GoArith.
 From CV Require Import Frame.FrameGoAgree.
@@ -109,6 +112,44 @@ Theorem C14_read_full_chunking : forall cs fin need got,
 Proof. exact read_full_loop_flat. Qed.
 Print Assumptions C14_read_full_chunking.
 
+(* ---------------------------------------------------------------- every reader behaviour the io.Reader contract permits *)
+
+(* io.ReadFull over a reader that may also deliver its final io.EOF together with the last bytes
+   ([tog]) and make (0, nil) reads (empty chunks): outcome and remaining bytes are a function of
+   the concatenated stream only *)
+Theorem C14_read_full_any_reader : forall cs tog need got,
+  (fst (xread_full_loop cs EOF tog need got),
+   concat (x_chunks (snd (xread_full_loop cs EOF tog need got))),
+   x_final (snd (xread_full_loop cs EOF tog need got)))
+  = read_full_flat (concat cs) EOF need got
+  /\ x_tog (snd (xread_full_loop cs EOF tog need got)) = tog.
+Proof. exact xread_full_loop_flat. Qed.
+Print Assumptions C14_read_full_any_reader.
+
+(* C14_decode_encode_stream / C14_cut_is_error for all of these behaviours: any chunking, empty
+   reads, io.EOF with the last bytes or by a separate read *)
+Theorem C14_decode_encode_stream_any_reader : forall msgs frames cs tog hc bc ru mx,
+  max_ok mx ->
+  Forall2 (fun m f => encode true m = Ok f) msgs frames ->
+  Forall (fun m => len m <= max_stream_segments) msgs ->
+  Forall (fun f => len f <= eff_max mx) frames ->
+  concat cs = concat frames ->
+  exists st' outs,
+    gdecode_n xread_full (mkD (mkX cs EOF tog) hc bc ru mx) (S (length msgs)) = (st', outs)
+    /\ map fst outs = map DMsg msgs ++ [DEof].
+Proof. exact decode_encode_stream_any_reader. Qed.
+Print Assumptions C14_decode_encode_stream_any_reader.
+
+Theorem C14_cut_is_error_any_reader : forall msgs m q tail cs tog hc bc ru mx,
+  max_ok mx -> Forall (frame_ok mx) msgs -> frame_ok mx m ->
+  frame m = q ++ tail -> q <> [] -> tail <> [] ->
+  concat cs = concat (map frame msgs) ++ q ->
+  exists st' outs e,
+    gdecode_n xread_full (mkD (mkX cs EOF tog) hc bc ru mx) (S (length msgs)) = (st', outs)
+    /\ map fst outs = map DMsg msgs ++ [DErr e] /\ (e = EReadHeader \/ e = EReadSegs).
+Proof. exact cut_is_error_any_reader. Qed.
+Print Assumptions C14_cut_is_error_any_reader.
+
 (* ---------------------------------------------------------------- packed paths (C13 composed with C14) *)
 
 (* bufio.Reader is not modelled: packed.Reader's two questions to it (Buffered() >= 9 for the
@@ -145,14 +186,58 @@ Theorem C14_packed_cut_is_error : forall msgs m q tail qp orc hc bc ru mx,
 Proof. exact packed_cut_is_error. Qed.
 Print Assumptions C14_packed_cut_is_error.
 
-(* a packed stream cut inside a packed item (the one-shot decoder rejects the prefix): no Decode
-   call reports io.EOF before one has reported an error *)
-Theorem C14_packed_cut_inside_item_no_eof : forall qp orc hc bc ru mx n st' outs,
-  bytes_ok qp -> unpack qp = None ->
-  pdecode_n (mkD (p_init orc qp) hc bc ru mx) n = (st', outs) ->
-  no_eof_before_error (map fst outs).
-Proof. exact packed_cut_inside_item_no_eof. Qed.
-Print Assumptions C14_packed_cut_inside_item_no_eof.
+(* ANY packed input, every oracle.  packed.Reader hands out fst (unpack_partial P) (C13_read_calls_partial);
+   if that is the frames of [msgs] followed by [q] with q a non-empty strict prefix of a further
+   frame, or q empty while P does not unpack (cut inside a packed item at a frame boundary of what
+   was handed out): NewPackedDecoder returns exactly [msgs], in order, then an error, never io.EOF.
+   (Replaces the weaker C14_packed_cut_inside_item_no_eof of round 2.) *)
+Theorem C14_packed_cut_inside_item : forall msgs P q orc hc bc ru mx,
+  max_ok mx -> Forall (frame_ok mx) msgs -> bytes_ok P ->
+  fst (unpack_partial P) = concat (map frame msgs) ++ q ->
+  ((exists m tail, frame_ok mx m /\ frame m = q ++ tail /\ q <> [] /\ tail <> []) \/
+   (q = [] /\ snd (unpack_partial P) = false)) ->
+  exists st' outs e,
+    pdecode_n (mkD (p_init orc P) hc bc ru mx) (S (length msgs)) = (st', outs)
+    /\ map fst outs = map DMsg msgs ++ [DErr e] /\ (e = EReadHeader \/ e = EReadSegs).
+Proof. exact packed_cut_inside_item. Qed.
+Print Assumptions C14_packed_cut_inside_item.
+
+(* the packed stream written by NewPackedEncoder for [all], cut ANYWHERE (P ++ rest): what the
+   reader hands out for P is the frames of the first j messages followed by q, q empty or a
+   strict prefix of the next frame ... *)
+Theorem C14_packed_stream_cut_shape : forall mx all Pfull P rest,
+  max_ok mx -> Forall (pmsg_ok mx) all -> encode_packed_stream all = Ok Pfull -> Pfull = P ++ rest ->
+  bytes_ok P /\
+  exists j q, fst (unpack_partial P) = concat (map frame (firstn j all)) ++ q /\
+    (q = [] \/ exists m t, nth_error all j = Some m /\ frame m = q ++ t /\ q <> [] /\ t <> []).
+Proof. exact packed_stream_cut_shape. Qed.
+Print Assumptions C14_packed_stream_cut_shape.
+
+(* ... and unless the cut is clean (q empty and P unpacks: a packed frame boundary) the decoder
+   returns the first j messages and then an error *)
+Theorem C14_packed_stream_cut_is_error : forall mx all Pfull P rest orc hc bc ru,
+  max_ok mx -> Forall (pmsg_ok mx) all -> encode_packed_stream all = Ok Pfull -> Pfull = P ++ rest ->
+  forall j q, fst (unpack_partial P) = concat (map frame (firstn j all)) ++ q ->
+  (q = [] \/ exists m t, nth_error all j = Some m /\ frame m = q ++ t /\ q <> [] /\ t <> []) ->
+  (q <> [] \/ snd (unpack_partial P) = false) ->
+  exists st' outs e,
+    pdecode_n (mkD (p_init orc P) hc bc ru mx) (S (length (firstn j all))) = (st', outs)
+    /\ map fst outs = map DMsg (firstn j all) ++ [DErr e] /\ (e = EReadHeader \/ e = EReadSegs).
+Proof. exact packed_stream_cut_is_error. Qed.
+Print Assumptions C14_packed_stream_cut_is_error.
+
+(* the simulation behind these: on any bytes_ok packed input the packed decoder's outcomes are,
+   up to and including the first one that is not a message, those of the plain Decoder over what
+   the reader hands out, ended by io.EOF or io.ErrUnexpectedEOF according to unpack's verdict *)
+Theorem C14_pdecode_n_any_packed : forall P orc hc bc ru mx n k, bytes_ok P -> (k < n)%nat ->
+  let U := fst (unpack_partial P) in
+  let fin := verdict (snd (unpack_partial P)) in
+  let outs_plain := snd (decode_n (mkD (mkReader [U] fin) hc bc ru mx) n) in
+  let outs_packed := snd (pdecode_n (mkD (p_init orc P) hc bc ru mx) n) in
+  bytes_ok U /\
+  (all_msgs (firstn k outs_plain) = true -> firstn (S k) outs_packed = firstn (S k) outs_plain).
+Proof. exact pdecode_n_any_packed. Qed.
+Print Assumptions C14_pdecode_n_any_packed.
 
 (* prefixes of a packed stream accepted by the one-shot decoder unpack to prefixes of the
    unpacked stream; and the one-shot decoder is compositional *)
